@@ -110,6 +110,9 @@ func (w *World) AddNode(name string, cfg NodeConfig) *Node {
 	return n
 }
 
+// World returns the world the node lives in.
+func (n *Node) World() *World { return n.w }
+
 // PolicyPath is the node's policy file.
 func (n *Node) PolicyPath() string { return filepath.Join(n.Dir, "policy.conf") }
 
